@@ -101,6 +101,32 @@ CURATED = [
     ("Document", "str()", lambda d: str(d)),
     ("Document", "repr()", lambda d: repr(d)),
     ("Body", "replace(pattern) count", lambda b: b.replace("e")),
+    ("Body", "replace(pattern, formatted) count", lambda b: b.replace("e", formatted=True)),
+    ("Body", "replace(space pattern, formatted) count", lambda b: b.replace(" ", formatted=True)),
+    ("Paragraph", "replace(formatted) count", lambda p: p.replace("a", formatted=True)),
+    ("Header", "replace(formatted) count", lambda p: p.replace("a", formatted=True)),
+    ("Span", "replace(formatted) count", lambda p: p.replace("a", formatted=True)),
+    ("Table", "get_columns(range)", lambda t: t.get_columns((1, 2))),
+    ("Table", "get_columns(B:C)", lambda t: t.get_columns("B:C")),
+    ("Table", "get_columns(last)", lambda t: t.get_columns((max(0, t.width - 1), t.width))),
+    ("Table", "traverse_columns(1,3)", lambda t: list(t.traverse_columns(start=1, end=3))),
+    ("Table", "traverse_columns(2,)", lambda t: list(t.traverse_columns(start=2))),
+    ("Table", "get_rows(range)", lambda t: t.get_rows((1, 2))),
+    ("Table", "traverse(1,2)", lambda t: list(t.traverse(start=1, end=2))),
+    ("Table", "get_cells(area)", lambda t: t.get_cells((1, 1, 3, 3))),
+    ("Table", "get_cells(flat)", lambda t: t.get_cells(flat=True)),
+    ("Table", "get_values(flat)", lambda t: t.get_values(flat=True)),
+    ("Table", "get_values(cell_type)", lambda t: t.get_values(cell_type="all", complete=False)),
+    ("Table", "get_column_cells(1)", lambda t: t.get_column_cells(1)),
+    ("Table", "get_column_values(last)", lambda t: t.get_column_values(max(0, t.width - 1))),
+    ("Table", "get_row_values(last)", lambda t: t.get_row_values(max(0, t.height - 1))),
+    ("Table", "get_named_ranges", lambda t: t.get_named_ranges()),
+    ("Table", "rows", lambda t: t.rows),
+    ("Table", "columns", lambda t: t.columns),
+    ("Table", "cells", lambda t: t.cells),
+    ("Row", "traverse(1,2)", lambda r: list(r.traverse(start=1, end=2))),
+    ("Row", "get_cells(range)", lambda r: r.get_cells((1, 2))),
+    ("Row", "get_values(range)", lambda r: r.get_values((1, 3))),
     ("Body", "search", lambda b: b.search("e")),
     ("Body", "search_all", lambda b: b.search_all("a")),
     ("Body", "search_first", lambda b: b.search_first("a")),
